@@ -35,6 +35,9 @@ pub mod dm { use super::*; #[derive(derive_more::Debug)] pub struct U; #[derive(
              #[derive(derive_more::Debug)] pub struct S { pub f: A } }
 pub struct Skipped;
 pub fn q(s: &str) -> String { format!("{:?}", s) }
+// a field that writes nothing, and one whose output ends with a newline
+pub struct Z; impl Debug for Z { fn fmt(&self, _f: &mut Formatter<'_>) -> fmt::Result { Ok(()) } }
+pub struct L; impl Debug for L { fn fmt(&self, f: &mut Formatter<'_>) -> fmt::Result { f.write_str("l\n") } }
 // a field whose Debug writes "e" and then fails
 pub struct E;
 impl Debug for E { fn fmt(&self, f: &mut Formatter<'_>) -> fmt::Result { f.write_str("e")?; Err(fmt::Error) } }
@@ -71,7 +74,7 @@ def builder_probe(cases):
         rows.append(f'    ({i}, {json.dumps(c["name"])}, &[{codes}], {str(c["ne"]).lower()}, {str(c["o"]["alt"]).lower()}, {str(c["o"]["w"]).lower()}),')
     return ATOMS + r'''
 fn val(c: u8, dmv: bool) -> &'static dyn Debug {
-    match (c, dmv) { (b'A', _) => &A, (b'M', _) => &M, (b'X', _) => &X, (b'E', _) => &E,
+    match (c, dmv) { (b'A', _) => &A, (b'M', _) => &M, (b'X', _) => &X, (b'E', _) => &E, (b'Z', _) => &Z, (b'L', _) => &L,
         (b'U', false) => &st::U, (b'U', true) => &dm::U, (b'T', false) => &st::T(A), (b'T', true) => &dm::T(A),
         (b'S', false) => &st::S { f: A }, (b'S', true) => &dm::S { f: A }, _ => unreachable!() } }
 struct Script { name: &'static str, fs: &'static [u8], ne: bool, dmv: bool }
@@ -104,7 +107,7 @@ fn main() {
 # ---------------------------------------------------------------------------------------------------
 KINDS = {  # field kind -> (type, value expr for std side, for dm side, echoes formatter options?)
     "A": ("A", "A", "A", True), "M": ("M", "M", "M", False), "X": ("X", "X", "X", False),
-    "E": ("E", "E", "E", False), "U": ("{m}::U", "{m}::U", "{m}::U", False), "T": ("{m}::T", "{m}::T(A)", "{m}::T(A)", True),
+    "E": ("E", "E", "E", False), "Z": ("Z", "Z", "Z", False), "L": ("L", "L", "L", False), "U": ("{m}::U", "{m}::U", "{m}::U", False), "T": ("{m}::T", "{m}::T(A)", "{m}::T(A)", True),
     "S": ("{m}::S", "{m}::S {{ f: A }}", "{m}::S {{ f: A }}", True),
     "I": ("i32", "255", "255", True), "F": ("f64", "1.5", "1.5", True), "V": ("Vec<i32>", "vec![1, 20]", "vec![1, 20]", True),
     "Z": ("&'static str", '"a\\nb"', '"a\\nb"', True), "O": ("Option<{m}::T>", "Some({m}::T(A))", "Some({m}::T(A))", True),
